@@ -7,6 +7,7 @@ import (
 	"fmt"
 	"math"
 	"net"
+	"net/http"
 	"net/http/httptest"
 	"net/netip"
 	"os"
@@ -34,25 +35,27 @@ import (
 
 // RunParams drives traceroute.RunTraceroute (via = lib) or server.TracerouteHandler (via = http).
 type RunParams struct {
-	Via         string `json:"via"`
-	Hostname    string `json:"hostname"`
-	Port        int    `json:"port"`
-	Protocol    string `json:"protocol"`
-	MinTTL      int    `json:"min_ttl"`
-	MaxTTL      int    `json:"max_ttl"`
-	DelayMs     int    `json:"delay_ms"`
-	TimeoutMs   int    `json:"timeout_ms"`
-	TCPMethod   string `json:"tcp_method"`
-	WantV6      bool   `json:"want_v6"`
-	Paris       bool   `json:"paris"`
-	ReverseDNS  bool   `json:"reverse_dns"`
-	PublicIP    bool   `json:"public_ip"`
-	Queries     int    `json:"queries"`
-	E2E         int    `json:"e2e"`
-	SkipPrivate bool   `json:"skip_private"`
-	Query       string `json:"query"`       // via http: raw query string
-	HTTPMethod  string `json:"http_method"` // via http: request method (default GET)
-	HTTPPath    string `json:"http_path"`   // via http: /traceroute (default) or /health
+	Via          string `json:"via"`
+	Hostname     string `json:"hostname"`
+	Port         int    `json:"port"`
+	Protocol     string `json:"protocol"`
+	MinTTL       int    `json:"min_ttl"`
+	MaxTTL       int    `json:"max_ttl"`
+	DelayMs      int    `json:"delay_ms"`
+	TimeoutMs    int    `json:"timeout_ms"`
+	TCPMethod    string `json:"tcp_method"`
+	WantV6       bool   `json:"want_v6"`
+	Paris        bool   `json:"paris"`
+	ReverseDNS   bool   `json:"reverse_dns"`
+	PublicIP     bool   `json:"public_ip"`
+	Queries      int    `json:"queries"`
+	E2E          int    `json:"e2e"`
+	SkipPrivate  bool   `json:"skip_private"`
+	Query        string `json:"query"`          // via http: raw query string
+	HTTPMethod   string `json:"http_method"`    // via http: request method (default GET)
+	HTTPPath     string `json:"http_path"`      // via http: /traceroute (default) or /health
+	BrokenWriter int    `json:"broken_writer"`  // via http: the response writer fails after this many bytes (0 = healthy)
+	StartDelayUs int64  `json:"start_delay_us"` // mix / main: the request starts this long after the scenario began
 	// environment
 	PubMode    string      `json:"pub_mode"`    // ok | fail | slow
 	DNS        wire.StrMap `json:"dns"`         // addr -> "name1,name2" | "!err" | "~slow:name" | "" (empty list)
@@ -89,6 +92,58 @@ type runOut struct {
 	DPort int      `json:"dport"`
 	Hops  []hopOut `json:"hops"`
 	RDNS  []string `json:"dst_rdns"`
+}
+
+// brokenWriter: an http.ResponseWriter whose client went away after n bytes.
+type brokenWriter struct {
+	h    http.Header
+	left int
+	code int
+}
+
+func (b *brokenWriter) Header() http.Header { return b.h }
+func (b *brokenWriter) WriteHeader(c int)   { b.code = c }
+func (b *brokenWriter) Write(p []byte) (int, error) {
+	if len(p) <= b.left {
+		b.left -= len(p)
+		return len(p), nil
+	}
+	n := b.left
+	b.left = 0
+	return n, errors.New("harness: client went away")
+}
+
+// httpRequest runs one request through the server's handler; returns status, content type, body.
+func httpRequest(ctx context.Context, srv *server.Server, q *RunParams) (int, string, string) {
+	method := q.HTTPMethod
+	if method == "" {
+		method = "GET"
+	}
+	path := q.HTTPPath
+	if path == "" {
+		path = "/traceroute"
+	}
+	req := httptest.NewRequest(method, path+"?"+q.Query, nil).WithContext(ctx)
+	if q.BrokenWriter > 0 {
+		bw := &brokenWriter{h: http.Header{}, left: q.BrokenWriter}
+		srv.TracerouteHandler(bw, req)
+		return bw.code, "", ""
+	}
+	rec := httptest.NewRecorder()
+	if path == "/health" {
+		srv.HealthHandler(rec, req)
+	} else {
+		srv.TracerouteHandler(rec, req)
+	}
+	return rec.Code, rec.Header().Get("Content-Type"), rec.Body.String()
+}
+
+func libParams(q *RunParams) traceroute.TracerouteParams {
+	return traceroute.TracerouteParams{
+		Hostname: q.Hostname, Port: q.Port, Protocol: q.Protocol, MinTTL: q.MinTTL, MaxTTL: q.MaxTTL, Delay: q.DelayMs,
+		Timeout: time.Duration(q.TimeoutMs) * time.Millisecond, TCPMethod: traceroute.TCPMethod(q.TCPMethod), WantV6: q.WantV6,
+		TCPSynParisTracerouteMode: q.Paris, ReverseDns: q.ReverseDNS, CollectSourcePublicIP: q.PublicIP,
+		TracerouteQueries: q.Queries, E2eQueries: q.E2E, SkipPrivateHops: q.SkipPrivate}
 }
 
 func init() { kinds["run"] = runRun; kinds["alloc"] = runAlloc }
@@ -155,6 +210,26 @@ func runRun(t *testing.T, s *Scenario) (evs []wire.Event) {
 		}
 		fetcher := &scriptedFetcher{mode: rp.PubMode}
 		tr := traceroute.VerifNewTraceroute(fetcher)
+		srv := server.VerifNewServer(tr)
+		// history: requests that this process served BEFORE the one under test (same caches, same server, same package-level
+		// state), each over a wire of its own that is not part of the trace
+		for _, b := range s.Before {
+			wire.Uninstall()
+			w0 := wire.New(s.Script)
+			w0.Install()
+			func() {
+				defer func() { recover() }()
+				if b.Via == "http" {
+					httpRequest(context.Background(), srv, b)
+				} else {
+					tr.RunTraceroute(context.Background(), libParams(b))
+				}
+			}()
+			w0.Stop()
+			synctest.Wait()
+			wire.Uninstall()
+			w.Install()
+		}
 		params := traceroute.TracerouteParams{
 			Hostname: rp.Hostname, Port: rp.Port, Protocol: rp.Protocol, MinTTL: rp.MinTTL, MaxTTL: rp.MaxTTL, Delay: rp.DelayMs,
 			Timeout: time.Duration(rp.TimeoutMs) * time.Millisecond, TCPMethod: traceroute.TCPMethod(rp.TCPMethod), WantV6: rp.WantV6,
@@ -191,29 +266,36 @@ func runRun(t *testing.T, s *Scenario) (evs []wire.Event) {
 				}
 			}()
 			if rp.Via == "http" {
-				srv := server.VerifNewServer(tr)
-				method := rp.HTTPMethod
-				if method == "" {
-					method = "GET"
+				// other requests served by the same server at the same time (their answers are not part of the trace)
+				var owg sync.WaitGroup
+				for _, q := range s.Mix {
+					q := q
+					owg.Add(1)
+					go func() {
+						defer owg.Done()
+						if q.StartDelayUs > 0 {
+							time.Sleep(time.Duration(q.StartDelayUs) * time.Microsecond)
+						}
+						httpRequest(ctx, srv, q)
+					}()
+				}
+				if rp.StartDelayUs > 0 {
+					time.Sleep(time.Duration(rp.StartDelayUs) * time.Microsecond)
 				}
 				path := rp.HTTPPath
 				if path == "" {
 					path = "/traceroute"
 				}
-				req := httptest.NewRequest(method, path+"?"+rp.Query, nil).WithContext(ctx)
-				rec := httptest.NewRecorder()
-				if path == "/health" {
-					srv.HealthHandler(rec, req)
-				} else {
-					srv.TracerouteHandler(rec, req)
-				}
-				ctype = rec.Header().Get("Content-Type")
-				status = rec.Code
-				body = rec.Body.String()
+				status, ctype, body = httpRequest(ctx, srv, rp)
+				owg.Wait()
 				if status == 200 && path == "/traceroute" {
 					res = &result.Results{}
-					if e := json.Unmarshal(rec.Body.Bytes(), res); e != nil {
+					dec := json.NewDecoder(strings.NewReader(body))
+					if e := dec.Decode(res); e != nil {
 						err = fmt.Errorf("harness: undecodable body: %w", e)
+						res = nil
+					} else if dec.More() {
+						err = fmt.Errorf("harness: the body holds more than one document")
 						res = nil
 					}
 				} else if status != 200 {
@@ -278,9 +360,15 @@ func runRun(t *testing.T, s *Scenario) (evs []wire.Event) {
 			doc = map[string]any{"protocol": res.Protocol, "dest_host": res.Destination.Hostname, "dest_port": res.Destination.Port,
 				"hc_min": res.Traceroute.HopCount.Min, "hc_max": res.Traceroute.HopCount.Max, "sent": res.E2eProbe.PacketsSent, "recv": res.E2eProbe.PacketsReceived}
 		}
-		w.Stop()
+		// goroutines of the repository that are still alive when the call has returned and everything has settled (they would be
+		// aborted by Stop below: count first), and those that do not even end then
 		synctest.Wait()
 		g, sample := repoGoroutines()
+		w.Stop()
+		synctest.Wait()
+		if g2, s2 := repoGoroutines(); g2 > g {
+			g, sample = g2, s2
+		}
 		opened, once, bad := w.HandleSummary()
 		dnsMu.Lock()
 		dc := map[string]int{}
